@@ -152,6 +152,9 @@ func callInfo(name string, args ...interface{}) []byte {
 	return b
 }
 
+// CallInfo renders the payload of a governance call.
+func CallInfo(name string, args ...interface{}) []byte { return callInfo(name, args...) }
+
 // StubProgram renders a program for the stub VM.
 func StubProgram(ops ...[]string) []byte {
 	b, _ := json.Marshal(map[string]interface{}{"ops": ops})
